@@ -220,7 +220,7 @@ def none_rule(ctx, R):
         for fr, pr, reason in NONE_TABLE:
             if re.search(fr, q) and pr in pn:
                 # re-verify the reason: the reassignment under `if method:` still exists
-                asg = [x for x in ast.walk(f.node) if isinstance(x, ast.If) and isinstance(x.test, ast.Name) and any(isinstance(y, ast.Assign) and any(isinstance(t, ast.Name) and t.id == pr for t in y.targets) for y in x.body)]
+                asg = [x for x in ast.walk(f.node) if isinstance(x, ast.If) and isinstance(x.test, ast.Name) and any(isinstance(y, ast.Assign) and any(isinstance(t, ast.Name) and t.id == pr for tt in y.targets for t in ast.walk(tt)) for y in x.body)]
                 defs = [x for x in ast.walk(f.node) if isinstance(x, ast.Assign) and asg and any(isinstance(t, ast.Name) and t.id == asg[0].test.id for t in x.targets)]
                 okr = bool(asg) and bool(defs) and all("tickMethod" in ntext(d.value) for d in defs)
                 R.check(okr, "C11.NONE", "%s|%s (table)" % (q, pr), where(f), "discharged: " + reason, "the table reason for `%s` no longer holds in %s (%s)" % (pr, q, reason))
@@ -271,9 +271,32 @@ LOG_TABLE = [
 ]
 
 
+def _local_guards(node, stop):
+    """(test AST, polarity) pairs known at `node` from short-circuit operators and conditional expressions."""
+    out = []
+    n = node
+    while n is not None and n is not stop:
+        par = getattr(n, "_parent", None)
+        if isinstance(par, ast.BoolOp) and n in par.values:
+            idx = par.values.index(n)
+            for v in par.values[:idx]:
+                out.append((v, isinstance(par.op, ast.And)))
+        if isinstance(par, ast.IfExp):
+            if n is par.body:
+                out.append((par.test, True))
+            elif n is par.orelse:
+                out.append((par.test, False))
+        n = par
+    return out
+
+
 def _nonzero_guard(ctx, f, node, den):
     """Is `node` (a division) dominated by a guard that makes `den` non-zero, in f or an enclosing function?"""
     dt = ntext(den)
+    for t_, pol in _local_guards(node, f.node):
+        for cand in (t_, _reparse(resolve_local(f, t_))):
+            if cand is not None and _test_implies_nonzero(cand, dt, den, pol):
+                return "short-circuit guard `%s` (%s)" % (ntext(t_)[:50], pol)
     g = f
     inner_node = node
     while g is not None:
@@ -300,12 +323,19 @@ def _nonzero_guard(ctx, f, node, den):
                             lab = reach_lab[0]
                     if lab is None:
                         continue
-                    if _test_implies_nonzero(t.ast, dt, den, lab):
+                    if _test_implies_nonzero(t.ast, dt, den, lab) or (_reparse(resolve_local(g, t.ast)) is not None and _test_implies_nonzero(_reparse(resolve_local(g, t.ast)), dt, den, lab)):
                         return "guard `%s` (%s branch) in %s" % (ntext(t.ast)[:50], lab, g.qual)
         # continue with the enclosing function: the closure is created at inner_node = the def/lambda
         inner_node = g.node
         g = g.parent
     return None
+
+
+def _reparse(txt):
+    try:
+        return ast.parse(txt, mode="eval").body
+    except Exception:
+        return None
 
 
 def _test_implies_nonzero(t, dt, den, lab):
@@ -330,9 +360,18 @@ def _test_implies_nonzero(t, dt, den, lab):
     return False
 
 
-def _const_expr(e):
+def _const_expr(e, mod=None, depth=0):
     if const_value(e) is not None:
         return const_value(e) != 0
+    if isinstance(e, ast.Call) and ntext(e.func) in ("math.log", "math.log10", "math.sqrt", "float", "int") and len(e.args) == 1 and const_value(e.args[0]) is not None:
+        v = const_value(e.args[0])
+        if ntext(e.func) in ("math.log", "math.log10"):
+            return v > 0 and v != 1
+        return v != 0
+    if isinstance(e, ast.Name) and mod is not None and depth < 3:
+        asg = mod.global_assigns(e.id)
+        if len(asg) == 1:
+            return _const_expr(asg[0].value, mod, depth + 1)
     if isinstance(e, ast.BinOp) and isinstance(e.op, (ast.Mult,)):
         a, b = _const_expr(e.left), _const_expr(e.right)
         return a and b
@@ -360,7 +399,7 @@ def divzero_sites(ctx, R, rule_id, reach):
                 den, what = nd.args[1], ntext(nd.func)
             if den is None:
                 continue
-            c = _const_expr(den)
+            c = _const_expr(den, f.module if not (isinstance(den, ast.Name) and den.id in ctx.types.locals.get(f.qual, ())) else None)
             if c is True:
                 continue
             n += 1
@@ -373,8 +412,12 @@ def divzero_sites(ctx, R, rule_id, reach):
                 R.ok(rule_id, keyt, where(f, nd), "non-zero: " + g)
                 continue
             hit = None
+            top = f
+            while top.parent is not None:
+                top = top.parent
+            dtexts = {ntext(den), resolve_local(f, den), resolve_local(top, den)}
             for fr, dr, reason in DIV_TABLE:
-                if re.search(fr, q) and re.search(dr, ntext(den)):
+                if re.search(fr, q) and any(re.search(dr, dt_) for dt_ in dtexts):
                     hit = reason
                     break
             if hit:
@@ -403,8 +446,10 @@ def divzero(ctx, R):
                     m += 1
                     keyt = "%s|%s(%s)" % (q, ntext(nd.func), ntext(a)[:40])
                     hit = None
+                    if _const_expr(a, f.module) is True:
+                        continue
                     for fr, ar, reason in LOG_TABLE:
-                        if re.search(fr, q) and re.search(ar, ntext(a)):
+                        if re.search(fr, q) and (re.search(ar, ntext(a)) or re.search(ar, resolve_local(f, a))):
                             hit = reason
                     if hit and "guarded" in hit:
                         g = _nonzero_guard(ctx, f, nd, a)
@@ -479,11 +524,12 @@ def index_rule(ctx, R):
     P = ctx.P
     f = P.func("timeline.Timeline.colorFunc")
     R.saw(f)
-    subs = [n for n in walk_local(f.node) if isinstance(n, ast.Subscript) and isinstance(n.ctx, ast.Load) and isinstance(n.value, ast.Subscript) and ntext(n.value) == "self.options[%s]" % f.params[1]]
+    tgt = "self.options[%s]" % f.params[1]
+    subs = [n for n in walk_local(f.node) if isinstance(n, ast.Subscript) and isinstance(n.ctx, ast.Load) and resolve_local(f, n.value) == tgt and not (isinstance(n.slice, ast.Name) and n.slice.id == f.params[1]) and ntext(n) != tgt]
     ok = bool(subs)
     for s in subs:
         sl = s.slice
-        ok = ok and isinstance(sl, ast.BinOp) and isinstance(sl.op, ast.Mod) and ntext(sl.right) == "len(%s)" % ntext(s.value) and isinstance(sl.left, ast.Name)
+        ok = ok and isinstance(sl, ast.BinOp) and isinstance(sl.op, ast.Mod) and resolve_local(f, sl.right) == "len(%s)" % tgt and isinstance(sl.left, ast.Name)
     R.check(ok, "C11.INDEX", f.qual, where(f), "a colour list is indexed modulo its length", "colorFunc indexes the caller's colour list with `%s`: IndexError as soon as there are more labels than colours (must be i %% len(list))" % (ntext(subs[0].slice) if subs else "nothing"))
 
 
@@ -860,7 +906,14 @@ def recursion(ctx, R):
         name = "cycle through " + ", ".join(sorted(comp)[:3]) + (" ..." if len(comp) > 3 else "")
         frames = _longest_cycle(graph, comp)
         # known finding: recursion depth grows with the size of a conflict cluster
-        kkey = "recursive component {%s}" % ", ".join(sorted(q for q in comp if "<lambda" not in q))
+        tops = set()
+        for q in comp:
+            g_ = P.funcs.get(q)
+            while g_ is not None and g_.parent is not None:
+                g_ = g_.parent
+            if g_ is not None:
+                tops.add(g_.qual)
+        kkey = "recursive component {%s}" % ", ".join(sorted(tops))
         R.bad("C11.RECURSION", kkey, P.funcs[sorted(comp)[0]].loc(), "block traversal is recursive (%d frames per level): clusters beyond ~%d labels exhaust the interpreter's recursion limit" % (frames, (LIMIT - 20) // max(frames, 1)))
         entry = depth_to(comp)
         need = entry + frames * (CLUSTER + WALLS)
